@@ -1,5 +1,6 @@
 import MalVerif.Proofs.ParseFuel
 import MalVerif.Proofs.ParseComplete
+import MalVerif.Proofs.LexPrefix
 /-!
 # C17 — malformed source is rejected, never half-compiled
 
@@ -7,21 +8,33 @@ import MalVerif.Proofs.ParseComplete
 …, `DStep`, `DAsset`, `DAssoc`, `DDecl`, `DDecls`), each with the value `malVisitor` builds from the derived
 token sequence.
 
+The start rule as written, `mal: declaration+ | EOF`, does not end in `EOF`: the generated parser stops silently at
+the first token that cannot start a declaration (`StopsAt`).  Until commit e0054c2 `MalCompiler.compile` returned
+the specification of the declarations in front of that token — a surplus `}`, a misspelt `asociations {…}`, any
+trailing text was dropped without an error.  That was a genuine defect against this property and has been repaired:
+after `parser.mal()` the compiler raises unless the next token is `EOF`.  The model has both: `parseMalRest` /
+`parseMalPrefix` (what the generated parser does, unchanged) and `parseMal` / `parseSource` (the compiler's
+verdict: the prefix parser must leave nothing; a text that does not lex is rejected).
+
 * `parse_sound_*`: whatever a parsing function returns is the value of a grammatical prefix of its input, and the
-  rest is returned untouched — for every rule, up to `parse_sound` for the start rule.  There is no way to get a
-  specification assembled from fragments: a result exists only if a prefix is derivable as a whole.
-* The start rule as written, `mal: declaration+ | EOF`, does not end in `EOF`: the parser stops silently at the
-  first token that cannot start a declaration (`StopsAt`); `trailing_tokens_are_ignored` is the smallest
-  instance.  This is the behaviour of the grammar, reproduced by the model; it is the one place where malformed
-  text is *not* rejected.
-* `parse_complete_*`, `parse_exact`, `reject_iff`: conversely every derivable prefix is parsed (under the follow
-  condition of its rule, with fuel twice its length): the parser accepts exactly the grammar, and a text is
-  rejected iff no prefix of it is derivable.
+  rest is returned untouched — for every rule, up to `parse_rest_sound` for `parser.mal()` and **`parse_sound`** for
+  the compiler: a result exists only if the WHOLE token list is derivable by `declaration*`.  There is no way to
+  get a specification assembled from fragments.
+* `parse_complete_*`, **`parse_exact`**, `reject_iff`: conversely everything derivable is parsed (under the follow
+  condition of its rule, with fuel twice its length): `parseMal ts = some ds ↔ DDecls ts [] ds`; a token list is
+  rejected iff it is not derivable as a whole.  `parse_rest_exact`: the same for the prefix parser.
+* **`trailing_input_rejected`**: if `parser.mal()` leaves tokens, nothing is returned (whatever parsed in front);
+  `prefix_variant_accepts_trailing`, `prefix_variant_accepts_lex_error`, `fix_only_rejects`: the pre-fix classifier
+  did return a specification for such input (the repaired defect), and the fix changes nothing else.
+* `lex_error_rejected`, `source_of_lexable`, `source_exact`; `lexPrefix_of_lexable`, `front_end_on_demand`,
+  `front_end_accepts_iff`: the control flow of ANTLR's on-demand token stream ends in a specification exactly when
+  `parseSource` returns one.
 * `consumes_prefix_*`: every parsing function returns a suffix of its input, strictly shorter for the
   non-optional rules.
-* `include_error_propagates`, `bad_file_has_no_spec`, `missing_file_has_no_spec`: an included file that is
-  missing, does not lex or does not parse makes the compilation of the includer fail as a whole.
-* `reject_examples`.
+* `include_error_propagates`, `bad_file_has_no_spec`, `missing_file_has_no_spec`, `include_of_malformed_file`,
+  `include_with_trailing_input`: an included file that is missing, does not lex, does not parse or has trailing
+  input makes the compilation of the includer fail as a whole.
+* `reject_*` examples.
 -/
 namespace MalVerif.C17
 open MalVerif MalVerif.Mal
@@ -73,18 +86,78 @@ theorem parse_sound_decl (f : Nat) (ts : List Tok) (d : Decl) (rest : List Tok)
     (h : parseDecl f ts = some (d, rest)) : ∃ pre, ts = pre ++ rest ∧ DDecl pre rest d :=
   parseDecl_sound f ts d rest h
 
-/-- the start rule: the declarations returned are the meaning of a grammatical prefix `pre`; parsing stopped at
-the end of the input or at a token that cannot start a declaration; non-empty input gives at least one
-declaration (`declaration+`) -/
+/-- `parser.mal()` (the start rule as written): the declarations returned are the meaning of a grammatical prefix
+`pre`, the tokens after it are handed back untouched; parsing stopped at the end of the input or at a token that
+cannot start a declaration; non-empty input gives at least one declaration (`declaration+`) -/
+theorem parse_rest_sound (ts : List Tok) (ds : List Decl) (rest : List Tok) (h : parseMalRest ts = some (ds, rest)) :
+    ∃ pre, ts = pre ++ rest ∧ DDecls pre rest ds ∧ StopsAt rest ∧ (ts ≠ [] → ds ≠ []) :=
+  parseMalRest_sound ts ds rest h
+
+/-- **the compiler's verdict**: a specification is only built from a token list that is derivable AS A WHOLE by
+`declaration*` — nothing is left over, nothing is skipped; non-empty input gives at least one declaration -/
 theorem parse_sound (ts : List Tok) (ds : List Decl) (h : parseMal ts = some ds) :
-    ∃ pre rest, ts = pre ++ rest ∧ DDecls pre rest ds ∧ StopsAt rest ∧ (ts ≠ [] → ds ≠ []) :=
+    DDecls ts [] ds ∧ (ts ≠ [] → ds ≠ []) :=
   parseMal_sound ts ds h
 
-/-- the grammar has no `EOF` after `declaration+`: tokens after the last declaration that cannot start a
-declaration are not an error -/
-theorem trailing_tokens_are_ignored :
-    parseMal [.hash, .id "id", .colon, .str "\"x\"", .rcurly, .id "junk"] = some [.define "id" (stripQuotes "\"x\"")] := by
+/-! ### trailing input: the repaired defect -/
+
+/-- the compiler's verdict is: `parser.mal()` succeeds and leaves nothing in the stream -/
+theorem parse_iff_rest (ts : List Tok) (ds : List Decl) : parseMal ts = some ds ↔ parseMalRest ts = some (ds, []) :=
+  parseMal_eq_some_iff ts ds
+
+/-- **trailing input is rejected**: when the parser stops in front of tokens it cannot continue with, no
+specification is returned — whatever could be parsed in front of them -/
+theorem trailing_input_rejected (ts : List Tok) (ds : List Decl) (rest : List Tok)
+    (h : parseMalRest ts = some (ds, rest)) (hr : rest ≠ []) : parseMal ts = none := by
+  unfold parseMal
+  rw [h]
+  cases rest with
+  | nil => exact absurd rfl hr
+  | cons t r => rfl
+
+/-- `#id: "x" } junk` — hypotheses of `trailing_input_rejected` are met by the old witness … -/
+example : parseMalRest [.hash, .id "id", .colon, .str "\"x\"", .rcurly, .id "junk"] =
+    some ([.define "id" (stripQuotes "\"x\"")], [.rcurly, .id "junk"]) := by rfl
+
+/-- … which is therefore rejected -/
+theorem trailing_tokens_are_rejected :
+    parseMal [.hash, .id "id", .colon, .str "\"x\"", .rcurly, .id "junk"] = none := by
   rfl
+
+/-- the pre-fix classifier (`parser.mal()` without the `EOF` check) returned whatever parsed in front of the trailing
+input: the defect, in general … -/
+theorem prefix_variant_returns_front (ts : List Tok) (ds : List Decl) (rest : List Tok)
+    (h : parseMalRest ts = some (ds, rest)) : parseMalPrefix ts = some ds := by
+  rw [parseMalPrefix_eq_rest, h]; rfl
+
+/-- … and on the witness: a specification with the define, the surplus `}` and `junk` dropped silently -/
+theorem prefix_variant_accepts_trailing :
+    parseMalPrefix [.hash, .id "id", .colon, .str "\"x\"", .rcurly, .id "junk"] =
+      some [.define "id" (stripQuotes "\"x\"")] := by
+  rfl
+
+/-- the fix only rejects: what the compiler accepts now, the pre-fix classifier accepted with the same result; and
+where they differ, the compiler now returns nothing (and tokens were left in the stream) -/
+theorem fix_only_rejects (ts : List Tok) :
+    (∀ ds, parseMal ts = some ds → parseMalPrefix ts = some ds) ∧
+    (∀ ds, parseMalPrefix ts = some ds → parseMal ts ≠ some ds →
+      parseMal ts = none ∧ ∃ rest, rest ≠ [] ∧ parseMalRest ts = some (ds, rest)) := by
+  constructor
+  · intro ds h
+    exact prefix_variant_returns_front ts ds [] ((parse_iff_rest ts ds).mp h)
+  · intro ds h hne
+    rw [parseMalPrefix_eq_rest] at h
+    cases hr : parseMalRest ts with
+    | none => rw [hr] at h; exact absurd h (by simp)
+    | some x =>
+      obtain ⟨ds', rest⟩ := x
+      rw [hr] at h
+      simp only [Option.map_some, Option.some.injEq] at h
+      subst h
+      have hrest : rest ≠ [] := by
+        rintro rfl
+        exact hne ((parse_iff_rest ts ds').mpr hr)
+      exact ⟨trailing_input_rejected ts ds' rest hr hrest, rest, hrest, rfl⟩
 
 /-! ### completeness: the parser accepts exactly the grammar -/
 
@@ -123,42 +196,60 @@ theorem parse_complete_assoc (pre : List Tok) (a : CAssoc) (h : DAssoc pre a) (r
 theorem parse_complete_decl (pre rest : List Tok) (d : Decl) (h : DDecl pre rest d) (f : Nat)
     (hf : 2 * pre.length + 1 ≤ f) : parseDecl f (pre ++ rest) = some (d, rest) := parseDecl_complete h f hf
 
-/-- the start rule: declarations derivable from a prefix that ends where no declaration can start are what
-`parseMal` returns (with the fuel it supplies itself) -/
-theorem parse_complete (pre rest : List Tok) (ds : List Decl) (h : DDecls pre rest ds) (hr : StopsAt rest)
-    (hne : pre ≠ [] ∨ rest = []) : parseMal (pre ++ rest) = some ds := parseMal_complete h hr hne
+/-- `parser.mal()`: declarations derivable from a prefix that ends where no declaration can start are what the
+prefix parser returns (with the fuel it supplies itself), together with exactly the tokens after that prefix -/
+theorem parse_rest_complete (pre rest : List Tok) (ds : List Decl) (h : DDecls pre rest ds) (hr : StopsAt rest)
+    (hne : pre ≠ [] ∨ rest = []) : parseMalRest (pre ++ rest) = some (ds, rest) := parseMalRest_complete h hr hne
 
-/-- **the parser is the grammar**: `parseMal ts = some ds` iff `ds` is the meaning of a prefix of `ts` derivable by
-`declaration*` that stops where no declaration can start (and is non-empty unless `ts` is empty) -/
-theorem parse_exact (ts : List Tok) (ds : List Decl) :
-    parseMal ts = some ds ↔
-      ∃ pre rest, ts = pre ++ rest ∧ DDecls pre rest ds ∧ StopsAt rest ∧ (pre ≠ [] ∨ rest = []) := by
+/-- `parser.mal()` is the start rule of the grammar as written: it returns `(ds, rest)` iff `ds` is the meaning of the
+prefix in front of `rest`, derivable by `declaration*`, that stops where no declaration can start (and is non-empty
+unless everything is empty) -/
+theorem parse_rest_exact (ts : List Tok) (ds : List Decl) (rest : List Tok) :
+    parseMalRest ts = some (ds, rest) ↔
+      ∃ pre, ts = pre ++ rest ∧ DDecls pre rest ds ∧ StopsAt rest ∧ (pre ≠ [] ∨ rest = []) := by
   constructor
   · intro h
-    obtain ⟨pre, rest, h1, h2, h3, h4⟩ := parse_sound ts ds h
-    refine ⟨pre, rest, h1, h2, h3, ?_⟩
+    obtain ⟨pre, h1, h2, h3, h4⟩ := parse_rest_sound ts ds rest h
+    refine ⟨pre, h1, h2, h3, ?_⟩
     by_cases hp : pre = []
     · right
-      have hds : ds = [] := by
-        cases h2 with
-        | nil => rfl
-        | cons hd _ => obtain ⟨t, r, hp1, _⟩ := ddecl_head hd; rw [hp1] at hp; simp at hp
+      have hds : ds = [] := (ddecls_nil_iff h2).mp hp
       subst hp
       simp only [List.nil_append] at h1
       by_cases hts : ts = []
       · rw [← h1]; exact hts
       · exact absurd hds (h4 hts)
     · exact .inl hp
-  · rintro ⟨pre, rest, rfl, h2, h3, h4⟩
-    exact parse_complete pre rest ds h2 h3 h4
+  · rintro ⟨pre, rfl, h2, h3, h4⟩
+    exact parse_rest_complete pre rest ds h2 h3 h4
 
-/-- rejection, exactly: no result iff no prefix is derivable that way -/
-theorem reject_iff (ts : List Tok) :
-    parseMal ts = none ↔
-      ¬ ∃ ds pre rest, ts = pre ++ rest ∧ DDecls pre rest ds ∧ StopsAt rest ∧ (pre ≠ [] ∨ rest = []) := by
+/-- the compiler accepts every token list that is derivable as a whole -/
+theorem parse_complete (ts : List Tok) (ds : List Decl) (h : DDecls ts [] ds) : parseMal ts = some ds :=
+  parseMal_complete h
+
+/-- **the compiler's verdict is the grammar with `EOF`**: `parseMal ts = some ds` iff the whole of `ts` is derivable
+by `declaration*` with meaning `ds` (`ts = []`, `ds = []` being the alternative `EOF` of the start rule) -/
+theorem parse_exact (ts : List Tok) (ds : List Decl) : parseMal ts = some ds ↔ DDecls ts [] ds :=
+  ⟨fun h => (parse_sound ts ds h).1, parse_complete ts ds⟩
+
+/-- in the form of the property text: a result exists iff the whole input is derivable, and then (`declaration+`)
+it has a declaration unless the input is empty -/
+theorem parse_exact_plus (ts : List Tok) (ds : List Decl) :
+    parseMal ts = some ds ↔ DDecls ts [] ds ∧ (ts = [] ∨ ds ≠ []) := by
+  constructor
+  · intro h
+    obtain ⟨h1, h2⟩ := parse_sound ts ds h
+    refine ⟨h1, ?_⟩
+    by_cases hts : ts = []
+    · exact .inl hts
+    · exact .inr (h2 hts)
+  · intro h; exact parse_complete ts ds h.1
+
+/-- rejection, exactly: no result iff the token list is not derivable as a whole -/
+theorem reject_iff (ts : List Tok) : parseMal ts = none ↔ ¬ ∃ ds, DDecls ts [] ds := by
   constructor
   · rintro h ⟨ds, hx⟩
-    rw [(parse_exact ts ds).mpr hx] at h; exact absurd h (by simp)
+    rw [parse_complete ts ds hx] at h; exact absurd h (by simp)
   · intro h
     cases hp : parseMal ts with
     | none => rfl
@@ -231,38 +322,110 @@ theorem include_of_malformed_file (files : String → Option String) (f : Nat) (
     compileFile files (f+1) name = none :=
   include_error_propagates files f name src p decls hfile hparse hinc (bad_file_has_no_spec files f p psrc hp hbad)
 
-/-! ### what "does not conform to the grammar" means for a text that does not lex
+/-- an included file with trailing input (here: a surplus `}` after its last declaration) has no specification, and
+so neither has the file that includes it — for ANY contents of the includer that reach the include -/
+theorem include_with_trailing_input (files : String → Option String) (f : Nat) (name src p psrc : String)
+    (decls : List Decl) (hfile : files name = some src) (hparse : parseSource src = some decls)
+    (hinc : Decl.incl p ∈ decls) (hp : files p = some psrc) (pts : List Tok) (pds : List Decl) (rest : List Tok)
+    (hlex : lex psrc = some pts) (hrest : parseMalRest pts = some (pds, rest)) (hne : rest ≠ []) :
+    compileFile files (f+1) name = none :=
+  include_of_malformed_file files f name src p psrc decls hfile hparse hinc hp
+    (by rw [parseSource_of_lex hlex]; exact trailing_input_rejected pts pds rest hrest hne)
 
-`parseSource` is the classifier of the property (the generated ANTLR lexer + parser with counting error listeners):
-tokens are fetched on demand, and the start rule has no `EOF`. -/
+/-- concrete: `root.mal` includes `inc.mal`, which ends in a surplus `}` -/
+example :
+    compileFile (fun n => if n = "root.mal" then some "include \"inc.mal\" #id: \"a\""
+                          else if n = "inc.mal" then some "#version: \"1\" }" else none) 4 "root.mal" = none := by
+  decide +kernel
+
+/-- … and without the `}` the two files compile -/
+example :
+    (compileFile (fun n => if n = "root.mal" then some "include \"inc.mal\" #id: \"a\""
+                           else if n = "inc.mal" then some "#version: \"1\"" else none) 4 "root.mal").isSome = true := by
+  decide +kernel
+
+/-! ### source texts: lexing errors
+
+`parseSource` is the compiler's verdict on a text: it must lex, and its tokens must be accepted by `parseMal`.
+The generated parser fetches tokens on demand (`BufferedTokenStream`), so the real control flow on a text with a
+lexical error is one of three (`frontEnd`, `Model/Compiler/Parser.lean`): (1) the parser fails on the tokens in front
+of the error — `syntaxError`; (2) it stops in front of the error at a token that cannot start a declaration — since
+e0054c2 `extraneousInput` (before: a specification was returned and the error never seen,
+`prefix_variant_accepts_lex_error`); (3) it consumes every token in front of the error and fetches the erroneous
+text as look-ahead — the lexer's listener raises, `lexError`.  All three are errors, which is what justifies the
+definition `parseSource src = (lex src).bind parseMal` (`front_end_accepts_iff`).  Which of the three errors the real
+code reports is not claimed (ANTLR's adaptive prediction may look further ahead than one token); that each of them
+is an error of the real front end is what the correspondence check `harness/props/c17.py` ties: *model rejects ⇔
+`MalCompiler.compile` raises* on every mutant, including the family "valid text + lexical error behind a stop
+token". -/
 
 /-- a text that lexes completely is judged by its tokens -/
 theorem source_of_lexable (src : String) (ts : List Tok) (h : lex src = some ts) :
     parseSource src = parseMal ts := parseSource_of_lex h
 
-/-- a text with a lexing error is rejected whenever the parser consumes every token in front of the error
-(its next look-ahead is then the erroneous text) … -/
-theorem lex_error_reached_rejected (src : String) (ds : List Decl) (hl : lex src = none)
-    (hp : parseMalRest (lexPrefix src) = some (ds, [])) : parseSource src = none := by
-  simp [parseSource, hl, hp]
+/-- **a text with a lexical error — anywhere — is rejected** -/
+theorem lex_error_rejected (src : String) (h : lex src = none) : parseSource src = none :=
+  parseSource_of_lex_none h
 
-/-- … or when the tokens in front of the error do not parse -/
-theorem lex_error_after_syntax_error_rejected (src : String) (hl : lex src = none)
-    (hp : parseMalRest (lexPrefix src) = none) : parseSource src = none := by
-  simp [parseSource, hl, hp]
+/-- a text is accepted iff it lexes and its whole token list is derivable by `declaration*` -/
+theorem source_exact (src : String) (ds : List Decl) :
+    parseSource src = some ds ↔ ∃ ts, lex src = some ts ∧ DDecls ts [] ds := by
+  cases hl : lex src with
+  | none => rw [lex_error_rejected src hl]; simp
+  | some ts => rw [source_of_lexable src ts hl, parse_exact]; simp
 
-/-- and it is *not* an error of the grammar when the parser has stopped at an earlier token that cannot start a
-declaration: the lexer is never asked for the erroneous text.  (`define define "x" y "` : after the two defines the
-look-ahead `"x"` ends the start rule; the unterminated quote at the end is never fetched.) -/
-theorem lex_error_never_fetched_accepted :
+/-- on a text that lexes, the tokens the parser can fetch on demand are all its tokens -/
+theorem lexPrefix_of_lexable (src : String) (ts : List Tok) (h : lex src = some ts) : lexPrefix src = ts :=
+  lexPrefix_of_lex src ts h
+
+/-- the on-demand control flow, uniformly: the parser runs on the tokens in front of the first lexing error (all
+tokens if there is none); a syntax error or left-over tokens are errors; if it consumed everything, the outcome
+depends on whether the end of the tokens is the end of the text or a lexing error -/
+theorem front_end_on_demand (src : String) :
+    frontEnd src =
+      match parseMalRest (lexPrefix src) with
+      | none => .syntaxError
+      | some (_, _ :: _) => .extraneousInput
+      | some (ds, []) => if (lex src).isSome then .spec ds else .lexError := by
+  unfold frontEnd
+  cases hl : lex src with
+  | none =>
+    simp only [Option.isSome_none]
+    cases parseMalRest (lexPrefix src) with
+    | none => rfl
+    | some x => obtain ⟨ds, rest⟩ := x; cases rest <;> rfl
+  | some ts =>
+    rw [lexPrefix_of_lexable src ts hl]
+    simp only [Option.isSome_some]
+    cases parseMalRest ts with
+    | none => rfl
+    | some x => obtain ⟨ds, rest⟩ := x; cases rest <;> rfl
+
+/-- the on-demand control flow ends in a specification exactly when `parseSource` returns it -/
+theorem front_end_accepts_iff (src : String) (ds : List Decl) : frontEnd src = .spec ds ↔ parseSource src = some ds :=
+  frontEnd_accepts_iff src ds
+
+/-- `#id: "a" #version: "1" "x" y "`: after the two defines the look-ahead `"x"` ends the start rule; the unterminated
+quote at the end was never fetched, and the pre-fix front end returned a specification for a text that does not
+even lex … -/
+theorem prefix_variant_accepts_lex_error :
     lex "#id: \"a\" #version: \"1\" \"x\" y \"" = none ∧
-    parseSource "#id: \"a\" #version: \"1\" \"x\" y \"" = some [.define "id" "a", .define "version" "1"] :=
+    parseSourcePrefix "#id: \"a\" #version: \"1\" \"x\" y \"" = some [.define "id" "a", .define "version" "1"] :=
   ⟨by decide +kernel, by rfl⟩
 
-/-- the same text with the stray quote directly after the last declaration is rejected -/
+/-- … now it is rejected, as `extraneous input` in front of the lexing error -/
+theorem lex_error_behind_stop_token_rejected :
+    parseSource "#id: \"a\" #version: \"1\" \"x\" y \"" = none ∧
+    frontEnd "#id: \"a\" #version: \"1\" \"x\" y \"" = .extraneousInput :=
+  ⟨by decide +kernel, by rfl⟩
+
+/-- the same text with the stray quote directly after the last declaration is rejected (then and now): the
+erroneous text is the look-ahead -/
 theorem lex_error_as_lookahead_rejected :
-    parseSource "#id: \"a\" #version: \"1\" \"" = none := by
-  rfl
+    parseSource "#id: \"a\" #version: \"1\" \"" = none ∧
+    frontEnd "#id: \"a\" #version: \"1\" \"" = .lexError ∧
+    parseSourcePrefix "#id: \"a\" #version: \"1\" \"" = none :=
+  ⟨by decide +kernel, by rfl, by decide +kernel⟩
 
 /-! ### examples of rejection -/
 
@@ -297,6 +460,36 @@ theorem reject_expressions :
       .rcurly, .rcurly] = none ∧
     parseMal [.kwCategory, .id "K", .lcurly, .kwAsset, .id "X", .lcurly, .or_, .id "s", .leadsto, .lsquare, .id "T",
       .rsquare, .rcurly, .rcurly] = none := by decide
+
+/-- a surplus `}` after a complete specification: `category K { asset X { | s } } }` -/
+theorem reject_surplus_rcurly :
+    parseMal [.kwCategory, .id "K", .lcurly, .kwAsset, .id "X", .lcurly, .or_, .id "s", .rcurly, .rcurly, .rcurly] = none ∧
+    parseMalPrefix [.kwCategory, .id "K", .lcurly, .kwAsset, .id "X", .lcurly, .or_, .id "s", .rcurly, .rcurly, .rcurly] ≠ none := by
+  decide
+
+/-- a misspelt top-level keyword: `category K { } asociations { X [a] * <-- L --> * [b] X }` — `asociations` is an
+identifier; the whole block used to be dropped -/
+theorem reject_misspelt_keyword :
+    parseMal [.kwCategory, .id "K", .lcurly, .rcurly, .id "asociations", .lcurly, .id "X", .lsquare, .id "a", .rsquare,
+      .star, .larrow, .id "L", .rarrow, .star, .lsquare, .id "b", .rsquare, .id "X", .rcurly] = none ∧
+    parseMalPrefix [.kwCategory, .id "K", .lcurly, .rcurly, .id "asociations", .lcurly, .id "X", .lsquare, .id "a",
+      .rsquare, .star, .larrow, .id "L", .rarrow, .star, .lsquare, .id "b", .rsquare, .id "X", .rcurly] =
+      some [.category "K" [] []] :=
+  ⟨by decide, by rfl⟩
+
+/-- trailing text: `#id: "a" this is not MAL` (as text: it lexes, and is rejected) -/
+theorem reject_trailing_text :
+    parseMal [.hash, .id "id", .colon, .str "\"a\"", .id "this", .id "is", .id "not", .id "MAL"] = none ∧
+    (lex "#id: \"a\" this is not MAL").isSome = true ∧ parseSource "#id: \"a\" this is not MAL" = none := by
+  refine ⟨by decide, by decide +kernel, by decide +kernel⟩
+
+/-- the same three without the trailing input are accepted -/
+example :
+    (parseMal [.kwCategory, .id "K", .lcurly, .kwAsset, .id "X", .lcurly, .or_, .id "s", .rcurly, .rcurly]).isSome = true ∧
+    (parseMal [.kwCategory, .id "K", .lcurly, .rcurly, .kwAssociations, .lcurly, .id "X", .lsquare, .id "a", .rsquare,
+      .star, .larrow, .id "L", .rarrow, .star, .lsquare, .id "b", .rsquare, .id "X", .rcurly]).isSome = true ∧
+    (parseSource "#id: \"a\"").isSome = true := by
+  refine ⟨by decide, by decide, by decide +kernel⟩
 
 /-- the well-formed variant of the first example is accepted -/
 example : (parseMal [.kwCategory, .id "K", .lcurly, .kwAsset, .id "X", .lcurly, .or_, .id "s", .leadsto, .id "b",
